@@ -567,6 +567,10 @@ enum Entry {
     /// SuffixArrayDictionary with the library default configuration (min_pattern_length 4, max 256, min_frequency 4, memory pool)
     /// wrapped in ConcurrentSuffixArrayDictionary for the longest-match query
     DictionaryDefault { sa: Alg },
+    /// SuffixArrayDictionary built with a QuickConfig preset (0 text, 1 binary, 2 log, 3 realtime; 4 = default with
+    /// sample_ratio 0.5): all of them sample the training text (sample_ratio < 1) once it exceeds 10_000 bytes, so the
+    /// dictionary text is a proper sub-text of the training text and every query is judged against `data()`
+    DictionarySampled { preset: u8 },
 }
 
 #[derive(Clone, Debug, Hash, Serialize, Deserialize)]
@@ -1322,8 +1326,67 @@ fn run_dictionary_default(text: &Text, alg: Alg) -> Outcome {
     done(format!("dictionary-default/{ralg}"), &t)
 }
 
+fn run_dictionary_sampled(text: &Text, preset: u8) -> Outcome {
+    use zipora::compression::dict_zip::QuickConfig;
+    let t = text.bytes();
+    let cfg = match preset {
+        0 => QuickConfig::text_compression(),
+        1 => QuickConfig::binary_compression(),
+        2 => QuickConfig::log_compression(),
+        3 => QuickConfig::realtime_compression(),
+        _ => SuffixArrayDictionaryConfig { sample_ratio: 0.5, ..SuffixArrayDictionaryConfig::default() },
+    };
+    let (min, max) = (cfg.min_pattern_length, cfg.max_pattern_length);
+    let dict = match SuffixArrayDictionary::new(&t, cfg) {
+        Ok(d) => d,
+        Err(e) => return Outcome::skip(&format!("dictionary refused: {}", zverif::core::truncate(&e.to_string(), 50))),
+    };
+    let d: Vec<u8> = dict.data().to_vec();
+    let n = d.len();
+    if dict.dictionary_text() != &d[..] || dict.dictionary_size() != n || n > t.len() {
+        return enumr::fail("search", "dict_text", format!("dictionary_text()/data()/dictionary_size() disagree ({} / {} / {} bytes, training text {} bytes)", dict.dictionary_text().len(), n, dict.dictionary_size(), t.len()));
+    }
+    let sampled = n < t.len();
+    // probes: pieces of the dictionary text, pieces of the training text (which may have been sampled away), absent strings
+    let mut probes: Vec<Vec<u8>> = Vec::new();
+    for base in [&d, &t] {
+        for at in [0usize, 1, base.len() / 3, base.len() / 2 + 7, base.len().saturating_sub(40)] {
+            for len in [min, min + 1, 12, 33, max.min(70)] {
+                if at + len <= base.len() {
+                    probes.push(base[at..at + len].to_vec());
+                }
+            }
+        }
+    }
+    probes.push(vec![0xF7; min + 2]);
+    let mut absent_tail = d[..n.min(min + 3)].to_vec();
+    absent_tail.push(0xF7);
+    probes.push(absent_tail);
+    for p in probes {
+        let occ = naive_occurrences(&d, &p);
+        let pc = pattern_class(&d, &p, occ.len());
+        let ms = match dict.find_all_matches(&p, usize::MAX) {
+            Ok(ms) => ms,
+            Err(e) => return enumr::fail("search", "dict_find_all_err", format!("find_all_matches returned Err({e})")),
+        };
+        let mut got: Vec<usize> = ms.iter().map(|m| m.dict_position).collect();
+        got.sort();
+        let want: &[usize] = if p.len() >= min && p.len() <= max { &occ } else { &[] };
+        if got != want {
+            return enumr::fail("search", format!("dict_sampled_find_all/{pc}"), format!("dictionary text of {n} bytes (training {} bytes) pattern {} (length limits {min}..={max}): positions {:?}, expected {:?}", t.len(), brief(&p), &got[..got.len().min(8)], &want[..want.len().min(8)]));
+        }
+        let depth = longest_prefix_depth(&d, &p, usize::MAX);
+        let st = dict.da_match_max_length(&p);
+        if st.depth != depth.min(p.len()) && !(st.depth <= depth && st.depth >= max) {
+            return enumr::fail("search", format!("dict_sampled_match_depth/{pc}"), format!("dictionary text of {n} bytes (training {} bytes) input {}: da_match_max_length depth {}, the longest prefix that occurs in data() has length {depth}", t.len(), brief(&p), st.depth));
+        }
+    }
+    done(format!("dictionary-sampled/preset{preset}/{}", if sampled { "sampled" } else { "whole_text_kept" }), &d)
+}
+
 fn run_case(c: &SaCase) -> Outcome {
     match c.entry {
+        Entry::DictionarySampled { preset } => run_dictionary_sampled(&c.text, preset),
         Entry::Builder { alg, variant } => run_builder(&c.text, alg, variant),
         Entry::EnhancedLcp => run_enhanced(&c.text, false),
         Entry::EnhancedBwt => run_enhanced(&c.text, true),
@@ -1499,6 +1562,21 @@ fn matcher_gen(tier: Tier, f: &mut dyn FnMut(SaCase) -> bool) -> bool {
     true
 }
 
+/// lengths on both sides of the 10_000-byte sampling threshold of SuffixArrayDictionary::new, x every QuickConfig preset
+fn dictionary_sampled_gen(tier: Tier, f: &mut dyn FnMut(SaCase) -> bool) -> bool {
+    let shapes: &[TShape] = if tier == Tier::Quick { &[TShape::Noise16, TShape::LowEnt5] } else { &[TShape::Noise16, TShape::LowEnt5, TShape::Noise5, TShape::Runs8, TShape::Noise256] };
+    for preset in 0..5u8 {
+        for &shape in shapes {
+            for n in [10_000u32, 10_001, 24_000] {
+                if !f(SaCase { text: Text::Grid { shape, n }, entry: Entry::DictionarySampled { preset } }) {
+                    return false;
+                }
+            }
+        }
+    }
+    true
+}
+
 fn dictionary_default_gen(tier: Tier, f: &mut dyn FnMut(SaCase) -> bool) -> bool {
     for sa in [Alg::Adaptive, Alg::SAIS] {
         let entry = Entry::DictionaryDefault { sa };
@@ -1525,6 +1603,7 @@ fn main() {
         add(reg, "SuffixArray/Enhanced{with_lcp,with_bwt}", &format!("{TEXT_SPACE} + length 10001 (beyond the default adaptive threshold); BWT convention: cyclic predecessor, no sentinel"), enhanced_gen, run_case);
         add(reg, "SuffixArray/compression::SuffixArrayCompressor", &format!("texts = (text over {{61}}, {{61,62}}, {{01,61,FF}}, {{01,61,62,FF}} or a grid text without 0x00) + sentinel 0x00; same length bounds as: {TEXT_SPACE}; x preset {{default, for_dictionary_compression (LCP), for_realtime, for_large_text, SuffixArrayCompressor::default() through Algorithm::execute (the last two: small scope 3 shorter, a second array built by the same compressor while the first is alive)}}; + xorshift texts over 255 symbols of length 65536 (thorough: 65534..65536, 49998, 49999, 99998, 99999: index width 2^16, parallel thresholds); suffix_at_rank, lcp_at, find_pattern / count_pattern / find_pattern_range with {PATTERN_SPACE}"), compressor_gen, run_case);
         add(reg, "SuffixArray/dict_zip::SuffixArrayDictionary", &format!("small-scope lengths 2 shorter than: {TEXT_SPACE}; grid lengths <= 257; x suffix_array_config algorithm {{Adaptive (default), DivSufSort}}; the matcher's array observed through find_all_matches on single bytes; find_all_matches (unbounded and max_matches 1), sa_match_continuation (from the root and continued from an inner state), sa_equal_range, da_match_max_length, find_longest_match (position 0 and 1) with {PATTERN_SPACE}"), dictionary_gen, run_case);
+        add(reg, "SuffixArray/dict_zip::SuffixArrayDictionary[sampled training text]", "xorshift / low-entropy texts of 10000, 10001 and 24000 bytes (the constructor samples above 10000 bytes) x QuickConfig {text, binary, log, realtime}_compression and default+sample_ratio 0.5: data()/dictionary_text()/dictionary_size() agree; find_all_matches and da_match_max_length for pieces of the dictionary text, pieces of the training text and absent strings are judged against a naive scan of data()", dictionary_sampled_gen, run_case);
         // ---- coverage audit
         add(reg, "SuffixArray/constructors{new,with_config,Algorithm::execute}", &format!("small-scope lengths 3 (quick) / 2 (thorough) shorter than: {TEXT_SPACE}; x {{SuffixArray::new; with_config(SAIS | LarssonSadakane); <SuffixArrayBuilder as Algorithm>::execute(cfg SAIS | DC3) on a builder constructed with another algorithm}}; SuffixArray::new also at lengths 10000, 50001 (thorough: 9999..10001, 50000, 50001, 99999..100001) of xorshift texts over 256 and 16 symbols; array + search/search_range with {PATTERN_SPACE}"), ctor_gen, run_case);
         add(reg, "SuffixArray/Builder[one object, several texts]", &format!("small-scope lengths 3 shorter than: {TEXT_SPACE}; grid lengths <= 257; x algorithm {{SAIS, DivSufSort, DC3, LarssonSadakane, Adaptive}}; one SuffixArrayBuilder builds a 67-byte Thue-Morse word, the text, its first half, the text doubled, the text again; every array judged, the first array re-read and searched at the end"), reuse_gen, run_case);
